@@ -28,3 +28,4 @@ import RenetVerif.Props.SrcTieNcAddr
 import RenetVerif.Props.SrcTieNcConnToken
 import RenetVerif.Props.SrcTieConn
 import RenetVerif.Props.SrcTieConnSend
+import RenetVerif.Props.SrcTieConnRecv
